@@ -30,6 +30,11 @@ def s_case(draw, force_huge=False):
     return {"x": x, "gv": draw(s_gv(noncommensurate=True)), "gv2": draw(s_gv(noncommensurate=True)), "shift": draw(st.booleans()), "dom": draw(st.sampled_from(["w", "f", "t"]))}
 
 
+def PTOL(n):
+    # a mean of n squares: any summation order is allowed, so the comparison allows the worst-case rounding of a plain running sum (n*eps)
+    return max(1e-12, 4 * n * 2.3e-16)
+
+
 def tol(ref):
     # FFT rounding error is relative to the size of the data: no absolute floor (weak signals must round-trip as well as strong ones)
     return 1e-9 * (float(np.max(np.abs(ref))) if np.size(ref) else 0.0) + 1e-300
@@ -109,10 +114,10 @@ def e_case(c):
     # power
     tot = m.total
     p = np.asarray(lib(x.power))
-    check(np.allclose(p, np.mean(np.abs(tot) ** 2, axis=-1), rtol=1e-12, atol=1e-300), "power!=mean|s+n|^2", f"{p}")
-    check(np.allclose(lib(x.power, "signal"), np.mean(np.abs(m.s) ** 2, axis=-1), rtol=1e-12, atol=1e-300), "power(signal)", "")
+    check(np.allclose(p, np.mean(np.abs(tot) ** 2, axis=-1), rtol=PTOL(N), atol=1e-300), "power!=mean|s+n|^2", f"{p}")
+    check(np.allclose(lib(x.power, "signal"), np.mean(np.abs(m.s) ** 2, axis=-1), rtol=PTOL(N), atol=1e-300), "power(signal)", "")
     pn = np.asarray(lib(x.power, "noise"))
-    check(np.allclose(pn, 0 if m.n is None else np.mean(np.abs(m.n) ** 2, axis=-1), rtol=1e-12, atol=1e-300), "power(noise)", f"{pn}")
+    check(np.allclose(pn, 0 if m.n is None else np.mean(np.abs(m.n) ** 2, axis=-1), rtol=PTOL(N), atol=1e-300), "power(noise)", f"{pn}")
     check(p.shape == (() if m.npol == 1 else (2,)), "power-shape", f"{p.shape}")
     cur = {k: (v.tobytes() if isinstance(v, np.ndarray) else v) for k, v in gv.__dict__.items()}
     check(cur == snap, "transform-changed-gv", "")
@@ -136,7 +141,7 @@ def e_case(c):
             eq(getattr(lib(x, "w"), nm), fft(arr, axis=-1), "transform-of-stale-content", f"x('w').{nm} after x.{nm} was edited in place")
             eq(getattr(lib(x, "t", True), nm), ifftshift(ifft(arr, axis=-1), axes=-1), "transform-of-stale-content", f"x('t',True).{nm} after an in-place edit")
         tot2 = x.signal if x.noise is None else x.signal + x.noise
-        check(np.allclose(lib(x.power), np.mean(np.abs(tot2) ** 2, axis=-1), rtol=1e-12, atol=1e-300), "power-of-stale-content", "")
+        check(np.allclose(lib(x.power), np.mean(np.abs(tot2) ** 2, axis=-1), rtol=PTOL(N), atol=1e-300), "power-of-stale-content", "")
     nt = (N >= 3 and N % 2 == 1) or (m.npol == 2 and m.n is not None) or fs != 16e9
     return {"nontrivial": bool(nt), "classes": [c["x"]["cls"] + str(m.npol), "odd" if N % 2 else "even", "N1" if N == 1 else "N2" if N == 2 else "N>2",
                                                  "noise" if m.n is not None else "clean", c["gv"]["form"], "huge" if N > 50000 else "big" if N > 1000 else "small", c["x"]["sig"]["dt"], f"scale{sc:g}", "weakq" if wq else "plain"]}
